@@ -5,6 +5,7 @@ from ..engine.prov import const_value, strip_casts, walk, walk_deep, show
 from ..engine.dtable import canon, enumerate_paths, path_return_value, path_local_value
 from ..engine.fold import fold, fold_ip
 from ..engine import panics
+from ..engine.cfg import is_raw_syscall
 from .c12 import mentions
 from .threads import fold_flags
 
@@ -53,9 +54,15 @@ def run_one(ck, prog):
         ctx = prog.ctx(fn)
         news, flags = builder_flags(prog, ctx)
         opens = [bb for bb, t in ctx.cfg.calls(lambda t: t.get("callee") == OO + "open")]
-        ck.ob("C14.1", f"{nm}|anchor|one builder", len(news) == 1 and len(opens) == 1, fn=nm, detail=f"OpenOptions::new sites {len(news)}, open sites {len(opens)}")
-        for f in ("write", "create", "truncate"):
-            ck.ob("C14.1", f"{nm}|{f}", flags.get(f) == 1, fn=nm, detail=f"the destination must be opened with {f}(true) (found {flags}); without truncate a previously longer file keeps its old tail")
+        ck.ob("C14.1", f"{nm}|anchor|one builder", len(news) == 1 and len(opens) >= 1, fn=nm, detail=f"OpenOptions::new sites {len(news)}, open sites {len(opens)}")
+        # every open of the destination, on every path, has write/create/truncate switched on before it
+        for k, ob in enumerate(sorted(opens)):
+            for f in ("write", "create", "truncate"):
+                setters = [bb for bb, t in ctx.cfg.calls(lambda t: t.get("callee") == OO + f) if len(ctx.args(bb)) > 1 and fold(ctx.args(bb)[1]) == 1]
+                unset = [bb for bb, t in ctx.cfg.calls(lambda t: t.get("callee") == OO + f) if not (len(ctx.args(bb)) > 1 and fold(ctx.args(bb)[1]) == 1)]
+                ok = any(ctx.cfg.dominates(sb, ob) for sb in setters) and not unset
+                ck.ob("C14.1", f"{nm}|{f}" + (f"|open#{k}" if k else ""), ok, fn=nm, site=ctx.site(ob),
+                      detail=f"the destination must be opened with {f}(true) on every path (setter sites {len(setters)}, non-true setters {len(unset)}); without truncate a previously longer file keeps its old tail")
 
     # ---- C14.2 decision tables --------------------------------------------------------------------------------------------
     consts = {n: prog.const("rusl::platform::compat::fcntl::OpenFlags::" + n) for n in ("O_RDONLY", "O_WRONLY", "O_RDWR", "O_APPEND", "O_CREAT", "O_TRUNC", "O_EXCL", "O_CLOEXEC")}
@@ -174,6 +181,32 @@ def run_one(ck, prog):
             bad.append(b)
         ck.ob("C14.4", "success-implies-whole-path-attempted", not bad and bool(ok_blocks), fn=helper["path"],
               detail="the helper can return Ok on a path that never attempted mkdir of the whole path: create_dir_all would report success without creating the directory")
+        # EEXIST at the whole path is success only when what exists there is a directory (stat + S_IFMT/S_IFDIR test):
+        # the whole-path result must not go through the unconditional forgiver, and every Ok built after a failed
+        # whole-path mkdir is dominated by stat(whole path) and by the true edge of `mode & S_IFMT == S_IFDIR`
+        if full:
+            fb = full[0]
+            forwarded = [bb for bb, t in cfg.calls(lambda t: (t.get("callee") or "").endswith("forgive_exists"))
+                         if mentions(ctx.args(bb)[0], ctx.prov, lambda z: z[0] == "call" and z[3] == fb)]
+            ck.ob("C14.4", "whole-path-exists-not-forgiven-blindly", not forwarded, fn=helper["path"], site=ctx.site(forwarded[0]) if forwarded else None,
+                  detail="EEXIST from mkdir of the whole path is turned into success without checking that a directory exists there (a regular file at the path makes create_dir_all return Ok)")
+            stats = [bb for bb, t in cfg.calls(lambda t: (t.get("callee") or "").endswith("stat::stat"))
+                     if mentions(ctx.args(bb)[0], ctx.prov, lambda z: z[0] == "param" and z[1] == 2)]
+            n_ok = 0
+            for b in helper["blocks"]:
+                if b["id"] not in cfg.live_blocks() or b.get("cleanup") or not cfg.dominates(fb, b["id"]):
+                    continue
+                if not any(s["k"] == "assign" and s["dst"]["l"] == 0 and not s["dst"].get("p") and s["rv"]["k"] == "agg" and s["rv"].get("variant") == "Ok" for s in b["stmts"]):
+                    continue
+                n_ok += 1
+                facts = panics.dominating_facts(ctx, b["id"])
+                is_dir = any(f[0] == "truth" and f[2] is True and mentions(f[1], ctx.prov, lambda z: z[0] == "const" and z[2] and z[2].endswith("Mode::S_IFDIR")) and
+                             mentions(f[1], ctx.prov, lambda z: z[0] == "const" and z[2] and z[2].endswith("Mode::S_IFMT")) and
+                             mentions(f[1], ctx.prov, lambda z: z[0] == "field" and z[2] == "st_mode") for f in facts)
+                by_stat = any(cfg.dominates(sb, b["id"]) for sb in stats)
+                ck.ob("C14.4", f"exists-means-directory|ok#{n_ok}", is_dir and by_stat, fn=helper["path"], site=ctx.site(b["id"]),
+                      detail="success after the whole-path mkdir failed must be dominated by stat(whole path) and `st_mode & S_IFMT == S_IFDIR`")
+            ck.floor("C14.4", "Ok-after-exists sites", n_ok, 1)
         # forgiveness: only EEXIST
         fg = prog.fns.get("tiny_std::fs::forgive_exists")
         forgiving = [fg] if fg is not None else [helper]
@@ -260,6 +293,23 @@ def run_one(ck, prog):
             a = ctx.args(gd[0])
             whole = mentions(a[1], ctx.prov, lambda z: z[0] == "field" and z[2] == "filled_buf") and not mentions(a[1], ctx.prov, lambda z: z[0] == "call" and (z[1] or "").endswith("Index::index"))
             ck.ob("C14.6", "whole-buffer-to-getdents", whole, fn=nx[0]["path"], detail="getdents must receive the whole buffer")
+        # end-of-directory is declared only on an empty read or an error: every `eod = true` and every `None` built before
+        # the parse is dominated by get_dents == 0 / its Err edge / an already set eod
+        is_gd = lambda z: z[0] == "call" and (z[1] or "").endswith("get_dents::get_dents")  # noqa: E731
+        n_eod = 0
+        for b in nx[0]["blocks"]:
+            if b["id"] not in cfg.live_blocks() or b.get("cleanup"):
+                continue
+            for i, s in enumerate(b["stmts"]):
+                if s["k"] == "assign" and s["dst"].get("p") and s["dst"]["p"][-1]["k"] == "field" and s["dst"]["p"][-1].get("n") == "eod":
+                    n_eod += 1
+                    v = fold(ctx.prov.rvalue(s["rv"], (b["id"], i)))
+                    facts = panics.dominating_facts(ctx, b["id"])
+                    empty = any(f[0] == "cmp" and f[1] == "Eq" and ((mentions(f[2], ctx.prov, is_gd) and fold(f[3]) == 0) or (mentions(f[3], ctx.prov, is_gd) and fold(f[2]) == 0)) for f in facts)
+                    failed = any(f[0] == "variant" and f[2] == "Err" and mentions(f[1], ctx.prov, is_gd) for f in facts)
+                    ck.ob("C14.6", f"end-declared-only-on-empty-read-or-error|eod#{n_eod}", v == 1 and (empty or failed), fn=nx[0]["path"], site=ctx.site(b["id"]),
+                          detail="`eod` may only be set when get_dents returned 0 bytes or failed; deciding the end from how full the buffer is drops entries whose record did not fit")
+        ck.floor("C14.6", "eod stores", n_eod, 2)
         # the closure advancing the offset: it captures `&mut self.offset` as upvar k and stores (*upvar_k) + d_reclen through it
         adv = False
         fnx = nx[0]
@@ -319,6 +369,22 @@ def run_one(ck, prog):
         ctx = prog.ctx(w)
         wa = [bb for bb, t in ctx.cfg.calls(lambda t: (t.get("callee") or "").endswith("Write::write_all"))]
         ck.ob("C14.7", "write-uses-write_all", len(wa) == 1 and mentions(ctx.args(wa[0])[1], ctx.prov, lambda z: z[0] == "param" and z[1] == 2), fn=w["path"], detail="fs::write must deliver the caller's buffer with write_all (a single write may be short)")
+    # kernel ABI of copy_file_range(fd_in, loff_t *off_in, fd_out, loff_t *off_out, len, flags): both offsets travel by pointer (or NULL)
+    cfr = prog.fns.get("rusl::unistd::copy_file_range::copy_file_range")
+    if ck.anchor("C14.7", "rusl copy_file_range", cfr):
+        c3 = prog.ctx(cfr)
+        sites = [bb for bb, t in c3.cfg.calls(lambda t: is_raw_syscall(t.get("callee")))]
+        ck.ob("C14.7", "copy_file_range|one-syscall", len(sites) == 1, fn=cfr["path"], detail=f"raw syscall sites {len(sites)}")
+        for bb in sites:
+            a = c3.args(bb)
+            for pos, nm in ((2, "off_in"), (4, "off_out")):
+                e = a[pos] if len(a) > pos else None
+                ptr = e is not None and (fold(e) == 0 or mentions(e, c3.prov, lambda z: z[0] in ("addr", "ref") or (z[0] == "cast" and "Pointer" in str(z[1]))))
+                ck.ob("C14.7", f"copy_file_range|{nm}-by-pointer", ptr, fn=cfr["path"], site=c3.site(bb),
+                      detail=f"the kernel reads {nm} as `loff_t *`; the wrapper passes `{show(e) if e is not None else None}` - a by-value offset only works while it is 0 (NULL), the second round of a long copy fails with EFAULT")
+            offs = [canon(a[pos]) for pos in (2, 4) if len(a) > pos]
+            ck.ob("C14.7", "copy_file_range|offsets-from-parameters", len(offs) == 2 and all(mentions(a[pos], c3.prov, lambda z, want=want: (z[0] == "param" and z[1] == want) or (z[0] in ("place", "var") and z[2] == ("src_offset" if want == 2 else "dest_offset"))) for pos, want in ((2, 2), (4, 4))), fn=cfr["path"], site=c3.site(bb),
+                  detail=f"off_in / off_out must designate the caller's source / destination offsets: {offs}")
     cp = prog.fns.get("tiny_std::fs::File::copy")
     if cp is not None:
         ctx = prog.ctx(cp)
